@@ -15,9 +15,9 @@ from props.c02 import collect_simple, validate_samples
 
 LEVEL = 'model_checking'
 
-CLASSES = ['rl-one-field', 'rl-two-fields', 'version-lowercase', 'version-1.2', 'version-garbage', 'version-2.0', 'version-3.0',
+CLASSES = ['rl-empty', 'rl-one-field', 'rl-two-fields', 'version-lowercase', 'version-1.2', 'version-garbage', 'version-2.0', 'version-3.0',
            'header-no-colon', 'nonascii-request-line', 'nonascii-header', 'expect-other']
-EXPECT = {'rl-one-field': 400, 'rl-two-fields': 400, 'version-lowercase': 400, 'version-1.2': 400, 'version-garbage': 400,
+EXPECT = {'rl-empty': 400, 'rl-one-field': 400, 'rl-two-fields': 400, 'version-lowercase': 400, 'version-1.2': 400, 'version-garbage': 400,
           'version-2.0': 505, 'version-3.0': 505, 'header-no-colon': 400, 'nonascii-request-line': None, 'nonascii-header': None,
           'expect-other': 417}
 KNOWN = {'version-2.0': '505-self-deadlock', 'version-3.0': '505-self-deadlock'}
@@ -25,6 +25,9 @@ KNOWN = {'version-2.0': '505-self-deadlock', 'version-3.0': '505-self-deadlock'}
 
 def offending_head(ctx, cls):
     tgt = K(b'/') + sym_token(ctx, 1, 'target', is_vchar)
+    if cls == 'rl-empty':
+        # zero request-line fields: an empty line where the request line should be
+        return CRLF + K(b'Host: a\r\n\r\n')
     if cls == 'rl-one-field':
         return sym_token(ctx, 3, 'word') + CRLF + K(b'Host: a\r\n\r\n')
     if cls == 'rl-two-fields':
@@ -62,7 +65,10 @@ def offending_head(ctx, cls):
         n = [3, 12][ctx.choose(2, 'vlen')]
         val = sym_token(ctx, n, 'expect', is_vchar)
         ctx.add(not_equal_nocase(val, b'100-continue'))
-        return K(b'POST ') + tgt + K(b' HTTP/1.1\r\n') + name + K(b': ') + val + CRLF + K(b'Content-Length: 0\r\n\r\n')
+        # the expectation is refused whatever the (supported) version of the request
+        ver = [b'HTTP/1.1', b'HTTP/1.0'][ctx.choose(2, 'expect-version')]
+        ka = K(b'Connection: keep-alive\r\n') if ver == b'HTTP/1.0' and ctx.choose(2, 'keep-alive') else []
+        return K(b'POST ') + tgt + K(b' ') + K(ver) + CRLF + name + K(b': ') + val + CRLF + ka + K(b'Content-Length: 0\r\n\r\n')
     raise ValueError(cls)
 
 
@@ -79,13 +85,20 @@ def run(L, rep, tier, seed):
             data += K(b'GET /first HTTP/1.1\r\nHost: a\r\n\r\n')
         if pos >= 2:
             data += K(b'POST /first HTTP/1.1\r\nHost: a\r\nContent-Length: 2\r\n\r\nxy')
-        data += offending_head(ctx, cls)
-        data += K(b'GET /after HTTP/1.1\r\nHost: c\r\n\r\n')
-        cv = Conv(S, ctx, data, end='eof')
+        waits = ctx.choose(2, 'client-waits') == 1
+        if waits:
+            # the client sends the offending head and then WAITS for the outcome with the connection open (nothing follows, no
+            # half-close): the definitive response (or the close) must come without any further byte from the client
+            data += (CRLF if cls == 'rl-empty' else offending_head(ctx, cls))
+        else:
+            data += offending_head(ctx, cls)
+            data += K(b'GET /after HTTP/1.1\r\nHost: c\r\n\r\n')
+        cv = Conv(S, ctx, data, end='block' if waits else 'eof')
         pred = {}
         delivered = []
-        sc = lambda m: dict({'kind': 'conversation', 'class': cls, 'position': pos, 'text': model_bytes(m, data).decode('latin1'),
-                             'mode': 'hold_first' if pos >= 1 else 'respond_all'}, **({'predicted': dict(pred, urls=[model_slice(m, r['url']).decode('latin1') for r in delivered])} if pred else {}))
+        sc = lambda m: dict({'kind': 'conversation', 'class': cls, 'position': pos, 'text': model_bytes(m, data).decode('latin1'), 'client_waits': waits,
+                             'mode': 'hold_first' if pos >= 1 else 'respond_all', 'half_close': not waits},
+                            **({'predicted': dict(pred, urls=[model_slice(m, r['url']).decode('latin1') for r in delivered])} if pred else {}))
         reqs = drive(cv, hold=lambda i, rq: (pos >= 1 and i == 0))
         urls = [r['url'].concrete() for r in reqs]
         delivered += reqs
@@ -99,6 +112,17 @@ def run(L, rep, tier, seed):
         want_code = EXPECT[cls]
         delivered_bad = any(u not in (b'/first', b'/after') for u in urls)
         ctx.check_always(z3.BoolVal(not delivered_bad), cls + '/not-delivered', sc)
+        if waits:
+            # blocking on the silent client is fine only AFTER the outcome: the expected status is on the wire, or (non-ASCII)
+            # the connection was closed
+            rs = cv.responses() or []
+            codes = [r.get('status') for r in rs]
+            closed = bool(cv.shutdowns()) or cv.ended
+            got_outcome = (want_code in codes) if want_code else closed
+            ctx.check_always(z3.BoolVal(got_outcome), cls + '/definitive-outcome-without-further-input', sc)
+            if want_code in (400, 417):
+                ctx.check_always(z3.BoolVal(cv.blocked is None), cls + '/closes-after-the-error-response', sc)
+            return True
         ctx.check_always(z3.BoolVal(cv.blocked is None), cls + '/never-hangs', sc)
         if cv.blocked is None and not delivered_bad:
             rs = cv.responses() or []
